@@ -68,3 +68,10 @@ impl LuaIndex for JsonSchemaIndex {
         // TODO clear all schema index
     }
 }
+
+#[cfg(feature = "verif-hooks")]
+impl JsonSchemaIndex {
+    pub(crate) fn verif_sizes(&self) -> Vec<(&'static str, usize)> {
+        vec![("schema_files", self.schema_files.len())]
+    }
+}
